@@ -72,6 +72,7 @@ func findValuesPkg(S *Streams, name string) *packages.Package {
 
 func checkCodecs(res *Result, S *Streams, rule string) {
 	checkDurationSign(res, rule)
+	checkAnyURIReader(res, rule)
 	// duration
 	if p := findValuesPkg(S, "duration"); p == nil {
 		res.undecided(rule, "values/duration", "-", "duration codec found", "package missing")
